@@ -273,15 +273,15 @@ Proof.
   destruct (cell_write_generic _ _ _ _ _ row col w v M Hrow Hcol Hw1 Hw8 Hfit Hv)
     as (EO & WR & M' & Len & EO' & RD & OL & FR & OTH).
   eexists. split.
-  { unfold entry_set_unsigned. rewrite EO. unfold ext_put_fixed.
+  { unfold entry_set_unsigned. rewrite EO. unfold dim_ext_put_fixed.
     replace ((1 <=? w) && (w <=? 8)) with true by lia. exact WR. }
   split; [exact M'|]. split; [exact Len|].
   split.
-  { unfold entry_get_unsigned. rewrite EO'. unfold ext_get.
+  { unfold entry_get_unsigned. rewrite EO'. unfold dim_ext_get.
     replace ((1 <=? w) && (w <=? 8)) with true by lia. rewrite RD, OL. reflexivity. }
   split; [exact FR|].
   intros row' col' Hr' Hc' Hne. destruct (OTH row' col' Hr' Hc' Hne) as (off' & E2 & E1 & _ & R).
-  unfold entry_get_unsigned. rewrite E1, E2. unfold ext_get. rewrite R. reflexivity.
+  unfold entry_get_unsigned. rewrite E1, E2. unfold dim_ext_get. rewrite R. reflexivity.
 Qed.
 
 (* ------------------------------------------------------------- raw 2/4/8-byte entries
@@ -351,11 +351,11 @@ Qed.
 
 Lemma pair_decode_cols buf dim rows cols :
   pair_decode buf dim = Some (rows, cols) ->
-  ext_get buf (pair_row_count dim) (pair_col_count dim) = Some cols.
+  dim_ext_get buf (pair_row_count dim) (pair_col_count dim) = Some cols.
 Proof.
   unfold pair_decode.
-  destruct (if pair_row_count dim =? 0 then Some 0 else ext_get buf 0 (pair_row_count dim)); [|discriminate].
-  destruct (ext_get buf (pair_row_count dim) (pair_col_count dim)); [|discriminate].
+  destruct (if pair_row_count dim =? 0 then Some 0 else dim_ext_get buf 0 (pair_row_count dim)); [|discriminate].
+  destruct (dim_ext_get buf (pair_row_count dim) (pair_col_count dim)); [|discriminate].
   intro H; injection H as _ ->. reflexivity.
 Qed.
 
